@@ -130,14 +130,15 @@ func main() {
 }
 
 type instr struct {
-	pkg     *packages.Package
-	file    *ast.File
-	fset    *token.FileSet
-	rep     *report
-	suffix  string
-	relFile string
-	count   int
-	needSim bool
+	pkg            *packages.Package
+	file           *ast.File
+	fset           *token.FileSet
+	rep            *report
+	suffix         string
+	relFile        string
+	count          int
+	needSim        bool
+	sleepRewritten bool
 }
 
 func sel(name string) ast.Expr {
@@ -197,6 +198,10 @@ func (in *instr) run() bool {
 	}
 	if in.needSim {
 		astutil.AddNamedImport(in.fset, in.file, simName, simrtPath)
+	}
+	// time.Sleep was rewritten: the import may have lost its last use
+	if in.sleepRewritten && !astutil.UsesImport(in.file, "time") {
+		astutil.DeleteImport(in.fset, in.file, "time")
 	}
 	return in.count > 0
 }
@@ -376,16 +381,9 @@ func (fi *funcInstr) stmts(list []ast.Stmt) []ast.Stmt {
 			fi.exprs(s)
 			if wake {
 				if d, ok := fi.isSleep(s); ok {
-					// __d := d; Sleeping(__d); time.Sleep(__d); Woke()
-					es := s.(*ast.ExprStmt)
-					call := es.X.(*ast.CallExpr)
-					tmp := ast.NewIdent("__simd")
-					blk := &ast.BlockStmt{List: []ast.Stmt{
-						&ast.AssignStmt{Lhs: []ast.Expr{tmp}, Tok: token.DEFINE, Rhs: []ast.Expr{d}},
-						callStmt("Sleeping", ast.NewIdent("__simd")),
-						&ast.ExprStmt{X: &ast.CallExpr{Fun: call.Fun, Args: []ast.Expr{ast.NewIdent("__simd")}}},
-						callStmt("Woke"),
-					}}
+					// time.Sleep(d) -> simrt.SleepFor(d)
+					blk := callStmt("SleepFor", d)
+					in.sleepRewritten = true
 					out = append(out, blk)
 					in.rep.WakeSites++
 					in.needSim = true
